@@ -100,6 +100,15 @@ type Peer struct {
 	PeerFinished      bool // a Finished message from the peer arrived under protection and verified
 	SentFinished      bool
 	PeerIVs           [][]byte // explicit IV / nonce of every protected record received
+	OfferTicket       bool     // client: send the session_ticket extension (empty unless Ticket is set)
+	Ticket            []byte   // client: ticket to present for resumption
+	ResumeMaster      []byte   // client: master secret of the session the ticket belongs to
+	ResumeSuite       uint16   // client: its cipher suite
+	NewTicket         []byte   // client: ticket received in NewSessionTicket
+	Resumed           bool     // client: the server echoed our session id, i.e. accepted the ticket
+	sentSID           []byte
+	keySuite          uint16
+	Lenient           bool // do not stop at a wrong peer Finished
 	RawIn             [][]byte // every record received, as on the wire (header and body)
 	RecLens           []int    // plaintext length of every protected record received
 	Fragment          int      // >0: cut outgoing handshake messages into records of at most this many bytes
@@ -270,6 +279,10 @@ func (p *Peer) ReadRecord() (typ byte, data []byte, err error) {
 
 // DeriveKeys computes master secret (if needed) and the key block.
 func (p *Peer) DeriveKeys() error {
+	if p.Suite != SuiteCBC && p.Suite != SuiteGCM {
+		return errors.New("gmref: no cipher suite agreed yet")
+	}
+	p.keySuite = p.Suite
 	if p.Master == nil {
 		if p.PMS == nil {
 			return errors.New("gmref: no pre-master secret")
@@ -528,7 +541,7 @@ func (p *Peer) SendCCS() error {
 		return err
 	}
 	p.Sent = append(p.Sent, "ChangeCipherSpec")
-	if p.Wr.Key == nil {
+	if p.Wr.Key == nil || p.keySuite != p.Suite {
 		if err := p.DeriveKeys(); err != nil {
 			// a premature ChangeCipherSpec: no keys exist yet, so nothing can be switched on
 			p.Sent = append(p.Sent, "(no keys yet: protection stays off)")
@@ -563,7 +576,7 @@ func (p *Peer) next() ([]byte, error) {
 			if len(p.hsIn) != 0 {
 				return nil, errors.New("gmref: ChangeCipherSpec inside a handshake message")
 			}
-			if p.Rd.Key == nil {
+			if p.Rd.Key == nil || p.keySuite != p.Suite {
 				if err := p.DeriveKeys(); err != nil {
 					return nil, err
 				}
@@ -680,6 +693,18 @@ func (p *Peer) digest(m []byte) error {
 		if p.Suite != SuiteCBC && p.Suite != SuiteGCM {
 			return fmt.Errorf("gmref: ServerHello suite %04x", p.Suite)
 		}
+		if p.Client && p.Ticket != nil && len(p.sentSID) > 0 && bytes.Equal(p.SessionID, p.sentSID) {
+			if p.Suite != p.ResumeSuite {
+				return fmt.Errorf("gmref: session resumed with suite %04x, the original session used %04x", p.Suite, p.ResumeSuite)
+			}
+			p.Resumed = true
+			p.Master = append([]byte{}, p.ResumeMaster...)
+		}
+	case 4: // NewSessionTicket
+		if len(body) < 6 || int(body[4])<<8|int(body[5]) != len(body)-6 {
+			return errors.New("gmref: malformed NewSessionTicket")
+		}
+		p.NewTicket = append([]byte{}, body[6:]...)
 	case HSCertificate:
 		cs, err := parseCerts(body)
 		if err != nil {
@@ -715,6 +740,9 @@ func (p *Peer) digest(m []byte) error {
 		}
 		ok := bytes.Equal(body, p.VerifyData(!p.Client))
 		p.Checks["peer-finished"] = ok
+		if !ok && p.Lenient {
+			break // a peer that does not care (it could not verify anyway): carry on
+		}
 		if !ok {
 			return errors.New("gmref: peer Finished verify_data wrong")
 		}
@@ -748,7 +776,18 @@ func ItemClientHello() Item {
 		if p.CR == nil {
 			p.CR = p.rnd(32)
 		}
-		return HS(HSClientHello, ClientHelloBody(p.Vers, p.CR, nil, p.Suites, []byte{0}))
+		body := ClientHelloBody(p.Vers, p.CR, nil, p.Suites, []byte{0})
+		if p.OfferTicket || p.Ticket != nil {
+			if p.Ticket != nil && p.sentSID == nil {
+				p.sentSID = p.rnd(16)
+			}
+			body = ClientHelloBody(p.Vers, p.CR, p.sentSID, p.Suites, []byte{0})
+			ext := append([]byte{0, 35}, u16(len(p.Ticket))...)
+			ext = append(ext, p.Ticket...)
+			body = append(body, u16(len(ext))...)
+			body = append(body, ext...)
+		}
+		return HS(HSClientHello, body)
 	}}
 }
 
@@ -848,7 +887,7 @@ func (p *Peer) Send(it Item) error {
 				return err
 			}
 			p.Sent = append(p.Sent, it.Name)
-			if p.Wr.Key == nil {
+			if p.Wr.Key == nil || p.keySuite != p.Suite {
 				if err := p.DeriveKeys(); err != nil {
 					return err
 				}
@@ -935,14 +974,27 @@ func (p *Peer) Run(s *Script) (res Result) {
 		if err := p.sendFlight(s, 0, []Item{ItemClientHello()}); err != nil {
 			return fail("send flight 0", err)
 		}
-		if err := p.ReadUntil(HSServerDone); err != nil {
-			return fail("read server hello flight", err)
+		if err := p.ReadUntil(HSServerHello); err != nil {
+			return fail("read ServerHello", err)
 		}
-		if err := p.sendFlight(s, 1, p.ClientFlight1(s)); err != nil {
-			return fail("send flight 1", err)
-		}
-		if err := p.ReadUntil(HSFinished); err != nil {
-			return fail("read server Finished", err)
+		if p.Resumed {
+			// abbreviated handshake: the server finishes first, under the ORIGINAL master secret
+			if err := p.ReadUntil(HSFinished); err != nil {
+				return fail("read server Finished (resumption)", err)
+			}
+			if err := p.sendFlight(s, 1, []Item{ItemCCS(), ItemFinished()}); err != nil {
+				return fail("send flight 1 (resumption)", err)
+			}
+		} else {
+			if err := p.ReadUntil(HSServerDone); err != nil {
+				return fail("read server hello flight", err)
+			}
+			if err := p.sendFlight(s, 1, p.ClientFlight1(s)); err != nil {
+				return fail("send flight 1", err)
+			}
+			if err := p.ReadUntil(HSFinished); err != nil {
+				return fail("read server Finished", err)
+			}
 		}
 	} else {
 		if err := p.ReadUntil(HSClientHello); err != nil {
